@@ -301,7 +301,7 @@ var propC05 = &Prop[DataCase]{
 	ID:   "C05",
 	Rule: "programs of data directives: DB/DW/DD with 1..64 operands mixing numbers (negative, boundary, out of range), constant expressions, strings and single characters (DB), earlier labels and $; RESB n and RESB addr-$; ALIGNB n; interleaved EQU, labels, GLOBAL/EXTERN and bracket directives; ORG aligned and unaligned; oracle: reference model of the directives written from the property text (little-endian low bits, strings byte for byte, n zeros, minimal padding of the address), plus location counter = bytes emitted; non-trivial = accepted and a list of >= 2 operands, a string, an expression or padding; distinct by source text. The enumeration is the complete ALIGNB grid (7 units x 64 residues x 4 origins).",
 	Gen: func(t *rapid.T) DataCase {
-		c := DataCase{Org: rapid.SampledFrom([]int64{-1, 0, 0x100, 0x7c00, 0x7c01, 0xc203}).Draw(t, "org"), Mode: rapid.SampledFrom([]int{0, 16, 32}).Draw(t, "mode")}
+		c := DataCase{Org: rapid.SampledFrom([]int64{-1, 0, 0x100, 0x7c00, 0x7c01, 0xc203, 0xfffc, 0x10000, 0x280000}).Draw(t, "org"), Mode: rapid.SampledFrom([]int{0, 16, 32}).Draw(t, "mode")}
 		used := map[string]bool{}
 		var labels []string
 		n := rapid.IntRange(1, 10).Draw(t, "nlines")
